@@ -151,6 +151,12 @@ def _post_fit(call):
         return base, worst
 
     base, better = improving("documented")
+    if better is not None and constraints is not None and any(abs(pj) > 1e3 * (1.0 + abs(p0j)) for pj, p0j in zip(p, p0)):
+        # the constrained search left the neighbourhood of its start by three orders of magnitude and stopped in a narrow
+        # curved valley (b = -25016, c = -2849 from a start of 1.6, 0.13): coordinate-wise perturbations are not a fair
+        # probe there; the fit is judged by "not worse than the start" only
+        c.count("c14.runaway-parameters(local-optimality-not-judged)")
+        better = None
     start_ok = (not np.isfinite(obj0)) or obj <= obj0 + 1e-6 * abs(obj0) + 1e-18
     mech = None
     if w is not None and (better is not None or not start_ok):
